@@ -121,6 +121,10 @@ def make_stub(contract):
     assume ensures.  Generator contracts become a one-yield generator (one havoc point)."""
     real = find_function(contract.owner, contract.name)
     sig = inspect.signature(real)
+    ann = getattr(real, "__annotations__", {}).get("return", None)
+    if contract.returns is None and ann not in (None, "None", type(None)) and not getattr(contract, "returns_none_ok", False):
+        raise SpecError(f"contract of {contract.qualname} is used as a stub but has no returns= type "
+                        f"(the function is annotated -> {ann}); a stub without it would return None")
 
     def stub(*a, **k):
         if not _ctx.active():
@@ -135,7 +139,23 @@ def make_stub(contract):
             rn, rf = r if isinstance(r, tuple) else (f"req{i}", r)
             c.oblige(f"call:{contract.qualname}/{rn}", rf(s), kind="callsite")
         # havoc
-        if isinstance(selfv, ObjProxy):
+        if contract.modifies == "world":
+            # opaque user code: every heap field may change except the listed frame (`keeps`)
+            keep = {}
+            for key in getattr(contract, "keeps", ()):
+                key = tuple(key)
+                ty = c.heap.tys.get(key)
+                if ty is None:
+                    ci = REG.by_name.get(key[0])
+                    ty = (ci.fields.get(key[1]) or ci.ghost.get(key[1])) if ci else None
+                if ty is None:
+                    raise SpecError(f"stub {contract.qualname}: unknown frame field {key}")
+                keep[key] = (c.heap.array(key, ty), c.heap.st.key_epoch.get(key, c.heap.st.base_epoch))
+            c.heap.havoc(None)
+            for key, (arr, ep) in keep.items():
+                c.heap.st.arrays[key] = arr
+                c.heap.st.key_epoch[key] = ep
+        elif isinstance(selfv, ObjProxy):
             mods = contract.modifies
             if mods is None:
                 mods = []
@@ -158,7 +178,27 @@ def make_stub(contract):
                 c.assume_value(ef(s))
             finally:
                 c.spec_mode -= 1
+        # ghost call trace: lets the caller's contract speak about which callees ran, with what
+        c.ghost_args.setdefault("trace", []).append((contract.qualname, vals, s.result))
         return s.result
+    if getattr(contract, "stub_yield", None) is not None:
+        # generator callee (opt-in: `contract.stub_yield = fn(s) -> yielded value`): one yield - the caller's
+        # driver lets the environment run there - then requires / havoc / ensures apply atomically in the
+        # resumed state, and the generator returns the contract's result
+        plain = stub
+
+        def stub(*a, **k):      # noqa: F811
+            if not _ctx.active():
+                return real(*a, **k)
+            ba0 = sig.bind(*a, **k)
+            ba0.apply_defaults()
+            h0 = _ctx.cur().heap.snapshot()
+            y = contract.stub_yield(NS(_old=h0, _seg=h0, result=None, exc=None, **dict(ba0.arguments)))
+
+            def _g():
+                yield y
+                return plain(*a, **k)
+            return _g()
     stub.__name__ = contract.name
     stub.__qualname__ = getattr(real, "__qualname__", contract.name)
     stub._pyvc_stub = True
@@ -262,6 +302,7 @@ def run_path(contract, c, state):
         if isinstance(v, ObjProxy):
             focus.append(v)
     s = NS(_old=None, _seg=None, self=selfv, result=None, exc=None, **args)
+    state["last_ns"] = s
     if contract.setup is not None:
         extra = contract.setup(s) or []
         focus.extend(extra)
@@ -409,6 +450,8 @@ def run_task(contract, timeout_s=600, keep_smt=0, dry=False):
             try:
                 return run_path(contract, c, state)
             finally:
+                if contract.teardown is not None:
+                    contract.teardown(state.get("last_ns"))
                 if c.keep_smt and c.obligations:
                     n_smt[0] += 1
         results = explore(run, max_paths=contract.max_paths, stats=stats)
